@@ -3013,6 +3013,26 @@ where
                         let mut puback_send = false;
                         let mut pubrec_send = false;
 
+                        // Validate the Topic Alias before any QoS bookkeeping, so that a PUBLISH
+                        // rejected for its alias is not remembered as a handled QoS 2 message
+                        let topic_alias_invalid =
+                            match Self::get_topic_alias_from_props(packet.props()) {
+                                Some(ta) => match self.topic_alias_recv.as_ref() {
+                                    Some(tar) => {
+                                        ta == 0
+                                            || ta > tar.max()
+                                            || (packet.topic_name().is_empty()
+                                                && tar.get(ta).is_none())
+                                    }
+                                    None => true,
+                                },
+                                None => packet.topic_name().is_empty(),
+                            };
+                        if topic_alias_invalid {
+                            self.handle_v5_0_error(MqttError::TopicAliasInvalid, &mut events);
+                            return events;
+                        }
+
                         let mut check_receive_maximum =
                             |events: &mut Vec<GenericEvent<PacketIdType>>| {
                                 if let Some(max) = self.publish_recv_max {
